@@ -583,8 +583,9 @@ def _rem_body(stmts, env, ints, fvar, i, samples, p):
             samples.append((i, gi, fi))
         elif isinstance(s, ast.Assign) and isinstance(s.targets[0], ast.Name):
             env[s.targets[0].id] = _Rem(env).ev(s.value)
-        elif isinstance(s, ast.AugAssign) and isinstance(s.target, ast.Name) and s.target.id in ints and is_const(s.value, 1):
-            ints[s.target.id] += 1
+        elif isinstance(s, ast.AugAssign) and isinstance(s.target, ast.Name) and s.target.id in ints and isinstance(s.value, ast.Constant) \
+                and isinstance(s.value.value, int) and isinstance(s.op, (ast.Add, ast.Sub)):
+            ints[s.target.id] += s.value.value if isinstance(s.op, ast.Add) else -s.value.value
         elif isinstance(s, ast.AugAssign) and isinstance(s.target, ast.Name) and s.target.id in env:
             env[s.target.id] = _Rem(env).ev(ast.BinOp(left=ast.Name(id=s.target.id, ctx=ast.Load()), op=s.op, right=s.value))
         elif isinstance(s, ast.Expr) and isinstance(s.value, ast.Call) and call_name(s.value) == "add_point" and dotted(s.value.func.value) == fvar:
